@@ -2034,7 +2034,7 @@ theorem walkNode_tmpl (text : TextSet) (depth f : Nat) (d r : Value) (out : Byte
       walkList false text (depth + 1) f d d out trh.root := by
   have he : evalPipe d r dotPipe = .ok d := by
     simp [evalPipe, evalPipe.go, dotPipe, evalCmd, bind, Except.bind]
-  have hd' : ¬ (depth ≥ 1000) := by omega
+  have hd' : ¬ (depth ≥ 2000) := by omega
   simp only [walkNode, hl, he, hd', if_false]
 
 theorem walkM_exec (text : TextSet) (depth : Nat) (hd : depth < 1000) (h : String) (trh : Tree) (esH : List EPiece)
